@@ -122,7 +122,7 @@ def is_lit_key(key):
     return key is not None and key[0] == "lit"
 
 
-SIMPLE_KEY_TYPES = {"tstr", "text", "uint", "int", "nint", "bstr", "bytes", "any"}
+SIMPLE_KEY_TYPES = {"tstr", "text", "uint", "int", "nint", "bstr", "bytes", "any", "float", "float16", "float32", "float64"}
 
 
 def key_class(key):
@@ -132,7 +132,8 @@ def key_class(key):
     if key[0] == "lit":
         return ("lit", key[1][0], key[1][1])
     if key[0] == "ref":
-        return ("ty", {"tstr": "T", "text": "T", "uint": "I", "int": "I", "nint": "I", "bstr": "B", "bytes": "B"}.get(key[1], "A"))
+        return ("ty", {"tstr": "T", "text": "T", "uint": "I", "int": "I", "nint": "I", "bstr": "B", "bytes": "B",
+                       "float": "F", "float16": "F", "float32": "F", "float64": "F"}.get(key[1], "A"))
     return ("ty", "A")
 
 
@@ -161,9 +162,17 @@ def map_shape_clean(S, g):
             b = S.body(x[1])
             return b is not None and has_gor(b, d + 1)
         return False
-    if has_gor(g):
-        return False
     alts = flat_members(S, g)
+    if has_gor(g):
+        # a group choice is inside the shape when each alternative is a list of REQUIRED literal-keyed members
+        # (after 721554e both validators try the alternatives from the same state) and the map has no wildcard member
+        if not gor_clean(S, g):
+            return False
+        for ms in alts:
+            for m in ms:
+                p = member_parts(m)
+                if p is None or not is_lit_key(p[2]):
+                    return False
     for ms in alts:
         wild_seen = []
         lit_seen = set()
@@ -188,6 +197,25 @@ def map_shape_clean(S, g):
                 if key is None or key[0] != "ref" or key[1] not in SIMPLE_KEY_TYPES:
                     return False
                 wild_seen.append(kc)
+    return True
+
+
+def gor_clean(S, g, depth=0):
+    """every '//' in the map group joins sequences of plain literal-keyed entries without occurrence"""
+    def plain(x):
+        if x[0] == "seq":
+            return plain(x[1]) and plain(x[2])
+        return x[0] == "ent" and is_lit_key(x[1])
+    k = g[0]
+    if k == "gor":
+        return plain(g[1]) and plain(g[2])
+    if k == "seq":
+        return gor_clean(S, g[1], depth) and gor_clean(S, g[2], depth)
+    if k == "occ":
+        return gor_clean(S, g[3], depth)
+    if k == "gref" and depth < 6:
+        b = S.body(g[1])
+        return b is not None and gor_clean(S, b, depth + 1)
     return True
 
 
